@@ -585,6 +585,16 @@ def _p2p_stream(program, folder, rep, fn):
     hr_ = plain(TP.term(_wp(ast.parse("%s - %s" % (hexp, row),
                                       mode="eval").body),
                         TP.cfg.loop_head[id(f)]))
+    if it_t[0] == "call" and it_t[1] == ("global", "range") and \
+            len(it_t[2]) == 1 and it_t[2][0][0] == "ite":
+        # ``8 if left >= 8 else left`` is min(8, left)
+        _, c_, a_, b_ = it_t[2][0]
+        if c_[0] == "cmp" and c_[1] in ("Lt", "LtE", "Gt", "GtE") and \
+                set([c_[2], c_[3]]) == set([a_, b_]) and a_ != b_:
+            smaller_first = (c_[1] in ("Lt", "LtE")) == (a_ == c_[2])
+            if smaller_first:
+                it_t = ("call", ("global", "range"),
+                        (("call", ("global", "min"), (a_, b_), ()),), ())
     okm = okm and it_t[0] == "call" and it_t[1] == ("global", "range") and \
         len(it_t[2]) == 1 and it_t[2][0][0] == "call" and \
         it_t[2][0][1] == ("global", "min") and \
@@ -606,8 +616,10 @@ def _p2p_stream(program, folder, rep, fn):
         okm = okm and isinstance(v, ast.Call) and \
             unparse(v.func).endswith("P2PTableEntry")
         if okm:
+            from ..util import resolve_tmp
+            a0 = resolve_tmp(fl, v.args[0], fl.cfg.node_of(st[0]))
             for k in range(8):
-                lay = provenance(v.args[0], _const_of(folder, mod, {ev: k}))
+                lay = provenance(a0, _const_of(folder, mod, {ev: k}))
                 okm = okm and len(lay.pieces) == 1 and (
                     lay.pieces[0].src_lo, lay.pieces[0].n) == (3 * k, 3)
     rep.check(oks, "C14-R2", inst, "each 32-bit word is decoded from the "
@@ -1583,13 +1595,21 @@ def r6_status(program, folder, rep):
                 RAW = RAW_
                 LEN = ("comp", DATA, 3)
                 app = []
+                grows = 0
                 for b_ in TI.binds:
                     if _inside(b_.node.ast, loops[0]) and \
                             b_.mode in ("aug", "assign"):
                         v_ = plain(TI._bind_term(b_))
                         if v_[0] == "binop" and v_[1] == "Add" and \
+                                v_[2][0] in ("mu", "phi", "const"):
+                            grows += 1
+                        if v_[0] == "binop" and v_[1] == "Add" and \
                                 v_[3][0] == "item" and v_[3][1] == RAW:
                             app.append(v_[3][2])
+                if not grows:
+                    raise AnalysisError("get_iobuf_bytes: the text of the "
+                                        "blocks is not accumulated with + "
+                                        "inside the walk; not analysed")
                 oki = app in ([("slice", ("const", HDR), ("binop", "Add", (
                     "const", HDR), LEN), ("const", None))],
                     [("slice", ("const", HDR), ("binop", "Add", LEN, (
